@@ -59,7 +59,7 @@ Proof.
     + intros p0 g Hd. unfold env_keys. rewrite Hd. left. reflexivity.
     + intros p0 Hp. unfold env_keys. apply in_or_app. right. apply in_or_app. left. apply done_pres_spec. exact Hp.
   - apply Forall_forall. intros ev Hev. unfold ev_good, env_keys.
-    destruct ev as [| | |pid [|p0|]| |cid [p0| | | |]| | |]; try exact I;
+    destruct ev as [| | | |pid [|p0|]| |cid [p0| | | |]| | |]; try exact I;
       (apply in_or_app; right; apply in_or_app; right; apply in_flat_map; eexists; split; [exact Hev|left; reflexivity]).
 Qed.
 
